@@ -141,7 +141,7 @@ def eval (blocks : List Block) (c : SymCache) (parts : List String) : SymCache Ã
     | "toint" => str x fun s => let r := ofOptInt (stringToInt s); (r, r)
     | "len" => str x fun s => (.int (stringLength s), .int (stringLength s))
     | "abs" => match x.toInt? with
-        | some i => same (.int (mathAbs i)) | none => same .bad
+        | some i => same (ofOptInt (mathAbs i)) | none => same .bad
     | "tonum" => same (.int (mathToNumber (x == "1")))
     | "tostr" => match x.toInt? with
         | some i => same (.str (mathToString i)) | none => same .bad
